@@ -2548,6 +2548,32 @@ def rule_d25(toks, log):
 
 
 # ---------------------------------------------------------------------------------------
+# D28: unary minus on an associated constant of a primitive float type (rational/src/simplify.rs `-<$t>::MIN_POSITIVE`)
+
+def rule_d28(toks, log):
+    """`- < T > :: IDENT` with T one of `f32` / `f64` (real tokens; the shape a `-<$t>::CONST` of a macro arm has after rule
+    E3b), directly preceded by a real `!=` or `==` ==> `__fneg_T ( < T > :: IDENT )`.  Verus (this build) rejects "unary op
+    negation of floating point"; `__fneg_f32` / `__fneg_f64` are ASSUMED stubs of the unit (lib/sf_prim_stubs.rs) whose
+    contract is IEEE negation: the sign bit of the bit pattern is flipped, nothing else.  Any other float negation is left
+    untouched (and rejected by Verus: exit-2 class)."""
+    out = []
+    i = 0
+    while i < len(toks):
+        t = toks[i]
+        if _real_is(t, '-') and i + 5 < len(toks) and out and not out[-1][2] and out[-1][0] == 'p' and out[-1][1] in ('!=', '==') \
+                and _real_is(toks[i + 1], '<') and not toks[i + 2][2] and toks[i + 2][0] == 'id' and toks[i + 2][1] in ('f32', 'f64') \
+                and _real_is(toks[i + 3], '>') and _real_is(toks[i + 4], '::') and toks[i + 5][0] == 'id' and not toks[i + 5][2]:
+            ty, name = toks[i + 2][1], toks[i + 5][1]
+            out += toks_of('__fneg_%s (' % ty, False) + toks[i + 1:i + 6] + toks_of(')', False)
+            log.append('D28 `- <%s>::%s` -> __fneg_%s(<%s>::%s) (assumed stub: IEEE negation flips the sign bit)' % (ty, name, ty, ty, name))
+            i += 6
+            continue
+        out.append(t)
+        i += 1
+    return out
+
+
+# ---------------------------------------------------------------------------------------
 
 def lower(toks, marks, opts=None):
     """toks: [(kind,text)], marks: [bool]; returns ([(kind,text)], log)."""
@@ -2588,6 +2614,7 @@ def lower(toks, marks, opts=None):
     ts = rule_d22(ts, log)
     ts = rule_d23(ts, log)
     ts = rule_d26(ts, log)
+    ts = rule_d28(ts, log)
     ts = rule_d1(ts, log)
     ts = rule_d9(ts, log)
     ts = rule_d8(ts, log)
